@@ -133,15 +133,35 @@ func LoadKnown(path string) ([]KnownFinding, error) {
 	return k, nil
 }
 
+// ApplyKnown turns violated obligations listed as open known findings into KnownOpen (own rules: rule+construct; rules
+// folded in from an included property: "<that property's rule> <construct>").
+func (r *Report) ApplyKnown(known []KnownFinding, print bool) {
+	open := map[string]KnownFinding{}
+	for _, k := range known {
+		if k.Status != "open" {
+			continue
+		}
+		if k.Property == r.Property {
+			open[k.Rule+"|"+k.Construct] = k
+		}
+		open[r.Property+".I|"+k.Rule+" "+k.Construct] = k
+	}
+	for _, o := range r.Obligations {
+		if o.Status == Violated {
+			if k, ok := open[o.Key()]; ok {
+				o.Status = KnownOpen
+				if print {
+					fmt.Printf("KNOWN-FINDING: property=%s %s %s — %s\n", r.Property, o.Rule, o.Construct, k.What)
+				}
+			}
+		}
+	}
+}
+
 // Finish applies known findings, prints the per-obligation lines, writes replay
 // files, and returns (violations, undecided).
 func (r *Report) Finish(known []KnownFinding, outDir string) (viol, undec int) {
-	open := map[string]KnownFinding{}
-	for _, k := range known {
-		if k.Property == r.Property && k.Status == "open" {
-			open[k.Rule+"|"+k.Construct] = k
-		}
-	}
+	r.ApplyKnown(known, true)
 	sort.SliceStable(r.Obligations, func(i, j int) bool {
 		a, b := r.Obligations[i], r.Obligations[j]
 		if a.Rule != b.Rule {
@@ -149,15 +169,6 @@ func (r *Report) Finish(known []KnownFinding, outDir string) (viol, undec int) {
 		}
 		return a.Construct < b.Construct
 	})
-	for _, o := range r.Obligations {
-		if o.Status == Violated {
-			if k, ok := open[o.Key()]; ok {
-				o.Status = KnownOpen
-				fmt.Printf("KNOWN-FINDING: property=%s %s %s — %s\n", r.Property, o.Rule, o.Construct, k.What)
-				continue
-			}
-		}
-	}
 	for _, o := range r.Obligations {
 		switch o.Status {
 		case OK:
